@@ -6,8 +6,13 @@ use crate::sim::*;
 use crate::spec::*;
 
 fn session(seed: u64, m: Option<u32>, r: Option<u16>) -> Sim {
+    session_with(seed, m, r, None)
+}
+
+/// `own_limit`: the client's own Maximum Packet Size sent in CONNECT (limits what the *server* may send; must not limit the client)
+fn session_with(seed: u64, m: Option<u32>, r: Option<u16>, own_limit: Option<u32>) -> Sim {
     let mut sim = Sim::new(seed);
-    sim.cmd(Cmd::Connect(ConnSpec::default()));
+    sim.cmd(Cmd::Connect(ConnSpec { max_packet_size: own_limit, ..Default::default() }));
     sim.settle();
     let mut props = Vec::new();
     if let Some(m) = m {
@@ -59,7 +64,7 @@ fn viol(rep: &mut Rep, sig: String, case: &str, detail: String, sim: &Sim) {
 
 pub fn run(rep: &mut Rep) {
     let reqs = requests(rep);
-    rep.note(&format!("{} requests (publish QoS 0/1/2, subscribe, unsubscribe, ping, disconnect; encoded length L from 2 to ~70 000, every L around 127/128 and 16383/16384) x M in {{L-1, L, L+1, 1, 2^32-1, absent}} x Receive Maximum {{1, 2}}; L measured by running the identical request on a twin session without a limit", reqs.len()));
+    rep.note(&format!("{} requests (publish QoS 0/1/2, subscribe, unsubscribe, ping, disconnect; encoded length L from 2 to ~70 000, every L around 127/128 and 16383/16384) x M in {{L-1, L, L+1, 1, 2^32-1, absent}} x Receive Maximum {{1, 2}} x the client's own CONNECT Maximum Packet Size {{absent, 16, L/2, L-1}} (irrelevant for outgoing packets); L measured by running the identical request on a twin session without a limit", reqs.len()));
     let mut idx = 0u64;
     for (name, spec) in &reqs {
         // twin run: measure L and learn which packet identifier the request uses
@@ -97,7 +102,14 @@ pub fn run(rep: &mut Rep) {
                 }
                 poster::verif::enable(true);
                 let _ = poster::verif::drain();
-                let mut sim = session(rep.seed, m, Some(r));
+                // the client's own limit announced in CONNECT rotates through absent / tiny / around L: it must make no difference
+                let own_limit = match (idx + r as u64) % 4 {
+                    0 => None,
+                    1 => Some(16),
+                    2 => Some((l / 2).max(1)),
+                    _ => Some(l.saturating_sub(1).max(1)),
+                };
+                let mut sim = session_with(rep.seed, m, Some(r), own_limit);
                 // a message is processed first so that a "before" snapshot exists
                 let warm = sim.start_op(0, OpSpec::Publish(PubSpec::simple(0, "w", b"")));
                 sim.settle();
